@@ -58,9 +58,13 @@ def run_tlc(module: str, cfg: str, workdir: Path, tag: str, *, env=None, workers
     meta = workdir / f"{tag}.meta"
     shutil.rmtree(meta, ignore_errors=True)
     workers = workers or NCPU
-    cmd = ["java", "-XX:+UseParallelGC", f"-Xmx{heap}"]
-    if gc_threads:
-        cmd.append(f"-XX:ParallelGCThreads={gc_threads}")
+    if workers == 1:
+        # judge processes: many run side by side, keep each JVM light
+        cmd = ["java", "-XX:+UseSerialGC", f"-Xmx{heap}", "-Xms256m", "-XX:TieredStopAtLevel=1"]
+    else:
+        cmd = ["java", "-XX:+UseParallelGC", f"-Xmx{heap}"]
+        if gc_threads:
+            cmd.append(f"-XX:ParallelGCThreads={gc_threads}")
     cmd += ["-cp", JAVA_CP, "tlc2.TLC", "-workers", str(workers), "-metadir", str(meta),
             "-noGenerateSpecTE", "-config", str(cfgp), *args, str(SPEC / f"{module}.tla")]
     e = dict(os.environ)
@@ -112,7 +116,7 @@ def _judge_batch(trace_module, path, n, workdir, tag, consts_cfg, env_extra=None
     env = {"TRACE_FILE": path}
     env.update(env_extra or {})
     r = run_tlc(trace_module, JUDGE_CFG + consts_cfg, workdir, tag, env=env,
-                workers=1, heap="3g", gc_threads=2, timeout=3600)
+                workers=1, heap="2g", timeout=3600)
     fails = tlaval.extract_tuples(r["out"], "FAILED")
     stats = tlaval.extract_tuples(r["out"], "STAT")
     if not r["ok"] or r["distinct"] != n + 1:
